@@ -211,7 +211,24 @@ def md_params(draw):
             n = max(1, n // 7)
     C = draw(st.sampled_from([1, 1, 2, 5, 10, 60, 3600]))
     S = C * draw(st.sampled_from([1, 2, 3, 10, 60]))
-    return {"n": n, "d": d, "C": C, "S": S, "prefix": draw(st.sampled_from(["metadata", "md", "x_y"]))}
+    return {"n": n, "d": d, "C": C, "S": S, "prefix": draw(st.sampled_from(["metadata", "md", "x_y"])),
+            # how the integer parameters are handed to the writer: Python ints, integer-valued floats (10e6 is a usual way
+            # of spelling a rate; accepted by the documented "must be an integer value" test), numpy integers
+            "ptype": draw(st.sampled_from(["int", "int", "float", "np"]))}
+
+
+def as_ptype(v, ptype):
+    import numpy as np
+    if ptype == "float" and float(v) == v and v < 2 ** 53:
+        return float(v)
+    if ptype == "np":
+        return np.uint64(v) if v % 2 else np.int64(v)
+    return v
+
+
+def open_writer(md, S, C, n, d, prefix, ptype="int"):
+    from . import rfharness
+    return rfharness.drf().DigitalMetadataWriter(md, as_ptype(S, ptype), as_ptype(C, ptype), as_ptype(n, ptype), as_ptype(d, ptype), prefix)
 
 
 def find_files(root):
